@@ -765,7 +765,7 @@ class Note:
             elif amp_figure != 'mf':
                 result += f".{self.amp_figure}"
         if len(self.tags) > 0:
-            result += f".add_tags({self.tags})"
+            result += ".add_tags({" + ", ".join(sorted(repr(tag) for tag in self.tags)) + "})"
 
         return result
 
